@@ -578,7 +578,20 @@ pub fn tlv() -> impl Strategy<Value = Tlv> {
         1 => (120usize..140).prop_flat_map(|n| prop::collection::vec(any::<u8>(), n)),
     ];
     (
-        (any::<bool>(), prop_oneof![4 => Just(vec![0u8]), 1 => small(3)], prop_oneof![3 => Just(vec![0x2bu8, 0x65, 0x6e]), 3 => Just(vec![0x2bu8, 0x65, 0x70]), 1 => small(5)]),
+        (any::<bool>(), prop_oneof![4 => Just(vec![0u8]), 1 => small(3)], prop_oneof![
+            6 => Just(vec![0x2bu8, 0x65, 0x6e]),
+            6 => Just(vec![0x2bu8, 0x65, 0x70]),
+            2 => small(5),
+            // the right arcs in encodings DER forbids: padded sub-identifiers, a last octet with the continuation bit
+            1 => Just(vec![0x2bu8, 0x65, 0x80, 0x6e]),
+            1 => Just(vec![0x2bu8, 0x80, 0x65, 0x70]),
+            1 => Just(vec![0x2bu8, 0x80, 0x80, 0x65, 0x6e]),
+            1 => Just(vec![0x2bu8, 0x65, 0xee]),
+            1 => Just(vec![0x2bu8, 0x65, 0xf0]),
+            // neighbouring algorithms of the same arc
+            1 => Just(vec![0x2bu8, 0x65, 0x6f]),
+            1 => Just(vec![0x2bu8, 0x65, 0x71]),
+        ]),
         (prop_oneof![5 => Just(vec![]), 1 => Just(vec![5u8, 0]), 1 => small(4)], prop_oneof![4 => Just(0x04u8), 4 => Just(0x03u8), 1 => any::<u8>()], key),
         (prop_oneof![3 => Just(None::<u8>), 3 => Just(Some(0x20u8)), 2 => Just(Some(0u8)), 2 => any::<u8>().prop_map(Some)], prop_oneof![4 => Just(0u8), 1 => any::<u8>()]),
         (prop_oneof![5 => Just(vec![]), 1 => small(4)], prop_oneof![5 => Just(vec![]), 1 => small(4)]),
